@@ -5,10 +5,10 @@
 import os, sys
 sys.path.insert(0, os.path.join(os.environ.get("AIOFTP_REPO", "/repo"), "src"))
 OBLIGATION = 'rt:c07/list/modify-to-the-day'
-MODEL = {'mode': 16804, 'size': 1, 'mtime': 1855698177, 'name': 'b c', 'kind': 'list'}
+MODEL = {'mode': 16804, 'size': 1, 'mtime': 1855720143, 'name': 'b c', 'kind': 'list'}
 SOLVER_NOTE = 'found by the bounded run-time contract checker on the real code'
 
 import json, subprocess
-inp = {'mode': 16804, 'size': 1, 'mtime': 1855698177, 'name': 'b c', 'kind': 'list'}
+inp = {'mode': 16804, 'size': 1, 'mtime': 1855720143, 'name': 'b c', 'kind': 'list'}
 p = subprocess.run(["/venv/bin/python", '/verif/rt/c07_rt.py', "replay", json.dumps(inp)], capture_output=True, text=True, env=dict(os.environ))
 print(p.stdout.strip() or p.stderr.strip())
